@@ -362,9 +362,11 @@ fn add_deep_annotation(g: &mut G, c: &mut Class) {
     let depth = *g.rng.pick(&[40usize, 63, 64, 65, 66, 100, 128, 200]);
     let t = JS::new("Ldeep/Anno;");
     let mut a = Annotation { type_: t.clone(), pairs: vec![(JS::new("leaf"), ElementValue::IntLike(b'I', depth as i32))] };
+    // pure annotation-in-annotation chains as well as chains that pass through an array now and then
+    let array_every = *g.rng.pick(&[0usize, 0, 7, 50]);
     for i in 0..depth {
         let inner = ElementValue::Annotation(a);
-        let v = if i % 7 == 3 { ElementValue::Array(vec![inner]) } else { inner };
+        let v = if array_every > 0 && i % array_every == 3 { ElementValue::Array(vec![inner]) } else { inner };
         a = Annotation { type_: t.clone(), pairs: vec![(JS::new("v"), v)] };
     }
     let targets = 1 + c.fields.len() + c.methods.len();
